@@ -30,12 +30,15 @@ package lightning
 
 //@ func (Client).SendPayment(ctx, request, maxFee)
 //@   trusted
+// what the LND adapter needs to put the limit on the wire unchanged (63-bit field); proved at every call site of the mint
+//@   requires @feefits [C02] maxFee < 9223372036854775808
 //@   modifies ln.attempted, ln.pay, ln.payerr, ln.npay
 //@   ensures ln.attempted == upd(old(ln.attempted), request, true)
 //@   ensures ln.pay == r0 && ln.payerr == err && ln.npay == old(ln.npay) + 1
 
 //@ func (Client).PayPartialAmount(ctx, request, amountMsat, maxFee)
 //@   trusted
+//@   requires @feefits [C02] maxFee < 9223372036854775808 && amountMsat < 9223372036854775808
 //@   modifies ln.attempted, ln.pay, ln.payerr, ln.npay
 //@   ensures ln.attempted == upd(old(ln.attempted), request, true)
 //@   ensures ln.pay == r0 && ln.payerr == err && ln.npay == old(ln.npay) + 1
@@ -52,3 +55,18 @@ package lightning
 //@ func (Client).ConnectionStatus
 //@   trusted
 //@   pure
+
+// ---- the LND adapter (C02): what it hands to the node is the invoice and the fee limit it was given
+// (the limit is a 63-bit quantity on the wire: a limit of 2^63 or more would wrap negative)
+//@ func (*LndClient).SendPayment
+//@   tags C02
+//@   requires @feefits [C02] maxFee < 9223372036854775808
+//@   calls (lnrpc.LightningClient).SendPaymentSync asserts @feelimit [C02] in.PaymentRequest == request && in.FeeLimit != nil && typeis(in.FeeLimit.Limit, ptr(lnrpc.FeeLimit_Fixed)) && unbox(in.FeeLimit.Limit, ptr(lnrpc.FeeLimit_Fixed)).Fixed == maxFee
+
+//@ func (*LndClient).PayPartialAmount
+//@   tags C02
+//@   requires @feefits [C02] maxFee < 9223372036854775808 && amountMsat < 9223372036854775808
+//@   calls (lnrpc.LightningClient).QueryRoutes asserts @feelimit [C02] in.FeeLimit != nil && typeis(in.FeeLimit.Limit, ptr(lnrpc.FeeLimit_Fixed)) && unbox(in.FeeLimit.Limit, ptr(lnrpc.FeeLimit_Fixed)).Fixed == maxFee && in.AmtMsat == amountMsat
+
+// (The CLN adapter builds its request as an inline map[string]interface{} literal handed to an HTTP helper:
+// outside the contract language's type expressions; it stays trusted to implement the interface contract.)
